@@ -646,8 +646,8 @@ def known_finding(c, rec, ns_eval):
         obj = ns_eval(c[1])
         import enum
 
-        if isinstance(obj, type) and issubclass(obj, enum.Enum) and c[2] in ("name", "value", "_name_", "_value_"):
-            return "C19-enum-class-name-value"
+        if isinstance(obj, type) and issubclass(obj, enum.Enum) and c[2] in ("_name_", "_value_"):
+            return "C19-enum-class-sunder-name-value"
         if c[2] in IGNORED_END_OF_REFERENCE and rec.get("only_known_attrs") is False:
             return "C19-ignored-end-of-reference"
     if k == "sub" and exc == "KeyError" and rec["codes"] == ["incompatible_argument"]:
@@ -660,10 +660,6 @@ def known_finding(c, rec, ns_eval):
         key = parse_key(c[2] if k == "sub" else c[3])
         if key is not None and key[0] == "slice" and key[1][2] == 0:
             return "C19-slice-step-zero-internal-error"
-    if k == "attr" and rec.get("literal_ok") is False:
-        obj = ns_eval(c[1])
-        if isinstance(obj, type) and rec["oracle"].get("value", "").startswith(("getset_descriptor", "member_descriptor")):
-            return "C19-class-access-to-instance-descriptor"
     return None
 
 
